@@ -7,6 +7,7 @@ Model of validator-set snapshots and of the validator set sent to a remote (EVM)
   x/evm/keeper/keeper.go      transformSnapshotToCompass, isEnoughToReachConsensus, thresholdForConsensus,
                               maxPower, PublishSnapshotToAllChains, PublishValsetToChain,
                               justInTimeValsetUpdate, msgSender.SendValsetMsgForChain, MissingChains
+                              the SkywayBatchBuilt subscriber and AddJustInTimeValsetUpdates (end blocker)
 Validators, chains, remote addresses, traits and chain types are naturals. The staking state
 (status / jailed / tokens per validator, in store order) is an *input* (`setStaking`): the
 Cosmos staking module is not modelled. Whether the relayer assignment
@@ -347,6 +348,22 @@ def jit (s : St) (c : Nat) (pick : Bool) : St × Res :=
     if !enough (transform cur c) then (s, .ok) else
     if !pick then (s, .rejected) else
     (send s c (transform cur c), .ok)
+
+/-- the skyway `SkywayBatchBuilt` event: the evm keeper's subscriber runs `justInTimeValsetUpdate`
+for the event's chain; the event bus logs and drops the handler's error -/
+def jitBus (s : St) (c : Nat) (pick : Bool) : St := (jit s c pick).1
+
+/-- an UpdateValset message is waiting in the chain's queue -/
+def hasQueuedValset (s : St) (c : Nat) : Bool := (visibleQueue s).any (fun p => p.1 == c)
+
+/-- `AddJustInTimeValsetUpdates` (x/evm end blocker) for ONE chain whose queue holds a fee-paying
+message (`SubmitLogicCall` / `UploadUserSmartContract`): the just-in-time update is requested
+unless an UpdateValset message is already queued; its error is logged and dropped. (`rejected`:
+the chain is not supported, so there is no queue a fee-paying message could wait in.) -/
+def jitEndBlock (s : St) (c : Nat) (pick : Bool) : St × Res :=
+  match findChain s c with
+  | none => (s, .rejected)
+  | some _ => if hasQueuedValset s c then (s, .ok) else ((jit s c pick).1, .ok)
 
 /-! ### histories -/
 
